@@ -725,9 +725,9 @@ Local Open Scope string_scope.
 
 (* fields excluded from the positive statement, and why (see props/C10.v) *)
 Definition excluded_nosig : list String.string :=
-  ["Vaxis.parser"; "Vaxis.tw"; "Vaxis.userCursorStyle"].
+  ["Vaxis.parser"; "Vaxis.tw"; "Vaxis.pastePending"; "Vaxis.userCursorStyle"].
 Definition excluded_full : list String.string :=
-  ["Vaxis.console"; "Vaxis.parser"; "Vaxis.tw"; "Vaxis.appIDLast"; "Vaxis.caps"; "Vaxis.charCache";
+  ["Vaxis.console"; "Vaxis.parser"; "Vaxis.tw"; "Vaxis.appIDLast"; "Vaxis.pastePending"; "Vaxis.caps"; "Vaxis.charCache";
    "Vaxis.cursorNext"; "Vaxis.cursorLast"; "Vaxis.closed"; "Vaxis.userCursorStyle"; "Vaxis.renders";
    "Vaxis.elapsed"; "writer.buf"].
 
